@@ -335,6 +335,19 @@ func init() {
 			x.Data["dt"] = x.Now() - t0
 			x.Data["killsAtReturn"] = r.killCount()
 			x.Data["tmpdir"] = r.tmpDir
+			// C01: a rejected line stays rejected: asking the same client again must not
+			// turn the failure into a started client
+			if e, _ := x.Data["err"].(error); e != nil && x.Data["panic"] == nil {
+				func() {
+					defer func() {
+						if rec := recover(); rec != nil {
+							x.Data["panic"] = fmt.Sprint(rec)
+						}
+					}()
+					a2, e2 := cl.Start()
+					x.Data["again"] = fmt.Sprintf("Start: addr-nil=%v err-nil=%v; Protocol()=%q; ReattachConfig()-nil=%v", a2 == nil || isNilAddr(a2), e2 == nil, cl.Protocol(), cl.ReattachConfig() == nil)
+				}()
+			}
 			// C05: a later Kill returns promptly and removes the socket dir
 			t1 := x.Now()
 			func() {
@@ -412,6 +425,9 @@ func init() {
 					}
 				}
 			} else {
+				if ag, _ := x.Data["again"].(string); ag != `Start: addr-nil=true err-nil=false; Protocol()=""; ReattachConfig()-nil=true` {
+					x.Fail("S", "after Start rejected the line (%v) the same client answers as if started: %s [%s]", err, ag, desc)
+				}
 				// C05: the launched process is terminated by the time the error is returned
 				if r.startCount() > 0 && x.Data["killsAtReturn"].(int) == 0 && !r.hasExited() {
 					x.Fail("S", "Start returned an error (%v) but the launched process was not killed [%s]", err, desc)
